@@ -104,8 +104,21 @@ def canonical_when(F, text):
                     d[contracts.short(g['q'])] = lits[0]
                     d[g['q'].replace('(anonymous namespace)', '(anon)')] = lits[0]
         _ROWS['linkwords'] = d
+    # the data members of the small value classes (Linkage, Calling_convention, Basic_specifier, ...) are private: their names are
+    # not part of any contract.  A class with a single data member has it rendered as `<member>` on both sides of the comparison
+    if 'valuefields' not in _ROWS:
+        import eqrule
+        names = set()
+        for c_ in eqrule.COMPONENTS:
+            fl_ = (F.rec.get(c_) or {}).get('fields', [])
+            if len(fl_) == 1:
+                names.add(fl_[0]['name'])
+        names |= {'lang', 'conv', 'spec', 'qual'}      # the names in the confirmed table (the tree at the time it was confirmed)
+        _ROWS['valuefields'] = sorted(names, key=len, reverse=True)
+    for nm in _ROWS['valuefields']:
+        text = re.sub(r'\.' + re.escape(nm) + r'(?=[.)\s]|$)', '.<member>', text)
     for q, w in _ROWS['linkwords'].items():
-        text = re.sub(re.escape(q) + r'\.[A-Za-z_]+\.Basic_unary<const String &>operand\(\)', f'ipr::impl::(anon)internal_string("{w}")', text)
+        text = re.sub(re.escape(q) + r'\.(?:[A-Za-z_]+|<member>)\.Basic_unary<const String &>operand\(\)', f'ipr::impl::(anon)internal_string("{w}")', text)
     return text
 
 
